@@ -169,6 +169,14 @@ pub fn fold(cu: u32) -> u32 {
     }
 }
 
+/// Apply an entry of the TO_UPPERCASE table as the legacy (non-Unicode) `Canonicalize` does:
+/// a code point outside ASCII never maps to an ASCII one (so U+017F and U+0131 stay put).
+#[inline(always)]
+fn apply_uppercase(fr: &FoldRange, cu: u32) -> u32 {
+    let cs = fr.apply(cu);
+    if cu >= 128 && cs < 128 { cu } else { cs }
+}
+
 fn uppercase(cu: u32) -> u32 {
     let searched = TO_UPPERCASE.binary_search_by(|fr| {
         if fr.first() > cu {
@@ -185,7 +193,7 @@ fn uppercase(cu: u32) -> u32 {
         } else {
             TO_UPPERCASE.get(index).expect("Invalid index")
         };
-        fr.apply(cu)
+        apply_uppercase(fr, cu)
     } else {
         cu
     }
@@ -311,7 +319,7 @@ pub(crate) fn unfold_uppercase_char(c: u32) -> Vec<u32> {
             continue;
         }
         for cp in tr.transformed_from().codepoints() {
-            let tcp = tr.apply(cp);
+            let tcp = apply_uppercase(tr, cp);
             if tcp == fcp {
                 res.push(cp);
             }
